@@ -142,6 +142,8 @@ func hullGen(r *rand.Rand, n int, tier string, emit func(Case)) {
 			if generalPosition(g) {
 				mk = 2
 			}
+		case 3:
+			mk = 3 + r.Intn(2)
 		}
 		c := pairCase(l, g, geom.Geometry{}, mk)
 		delete(c, "wb")
@@ -218,6 +220,9 @@ func hullExec(c Case) Event {
 	ev["ra"] = rectDesc(geom.RotatedMinimumAreaBoundingRectangle(g), s, inv)
 	ev["rw"] = rectDesc(geom.RotatedMinimumWidthBoundingRectangle(g), s, inv)
 	ev["rects"] = c.num("N") <= 8
+	if t := c.list("t"); t != nil && (hexFloat(t[1]) != 0 || hexFloat(t[2]) != 0) && hexFloat(t[0]) < 1 {
+		ev["rects"] = false // a tiny image at a large offset: the rectangle's own rounding exceeds the lattice unit
+	}
 	ev["nt"] = seq.Length() >= 3
 	return ev
 }
